@@ -109,7 +109,7 @@ func setIPv6PayloadJumboLength(hbh []byte) error {
 		//HopByHop is minimum 8 bytes
 		return fmt.Errorf("Invalid IPv6 payload (length %d)", pLen)
 	}
-	hbhLen := int((hbh[1] + 1) * 8)
+	hbhLen := (int(hbh[1]) + 1) * 8
 	if hbhLen > pLen {
 		return fmt.Errorf("Invalid hop-by-hop length (length: %d, payload: %d", hbhLen, pLen)
 	}
